@@ -710,8 +710,10 @@ func TestC15Burst(t *testing.T) {
 			}
 			for rep := 0; rep < 3; rep++ {
 				ids := make([]uint32, len(admins))
+				for _, c := range admins {
+					c.TakeInbox() // (waits for quiescence: done for all before the first request goes out)
+				}
 				for a, c := range admins {
-					c.TakeInbox()
 					ids[a] = c.NewID()
 					c.SendAsync(hlref.Tran{Type: hlref.TranListUsers, ID: ids[a]}.Encode())
 				}
